@@ -258,3 +258,83 @@ def check_zwindow(prop, tier):
         return res.finish(tier)
     finally:
         shutil.rmtree(work, ignore_errors=True)
+
+
+# --------------------------------------------------------------------------- X04: utils.findAll (PlusCal loop machine)
+
+FA_ALPHABETS = [{"a": "a", "b": "b"}, {"a": "[", "b": " "}, {"a": "é", "b": "\n"}, {"a": "\U0001F600", "b": "x"}]
+
+
+def _fa_job(job):
+    items, start, workdir = job
+    from praatio.utilities import utils
+    out = []
+    for i, (txt, sub, k) in enumerate(items):
+        al = FA_ALPHABETS[k]
+        st, ret = "ok", []
+        try:
+            ret = [int(x) for x in utils.findAll("".join(al[c] for c in txt), "".join(al[c] for c in sub))]
+        except Exception as ex:  # noqa
+            st = type(ex).__name__
+        out.append({"id": start + i, "fam": "findall", "op": "findAll", "txt": txt, "sub": sub, "st": st, "ret": ret})
+    return out
+
+
+def check_findall(prop, tier):
+    import random
+    res = common.Result(prop)
+    work = common.scratch()
+    sz = {"quick": dict(MaxTxt=6, MaxSub=3, rand=3000), "thorough": dict(MaxTxt=8, MaxSub=3, rand=50000)}[tier]
+    try:
+        T.praatio()
+        fn = os.path.join(work, "FindAll.cfg")
+        with open(fn, "w") as f:
+            f.write('CONSTANTS\n  Alphabet = {"a", "b"}\n  MaxTxt = %d\n  MaxSub = %d\n  Emit = TRUE\nSPECIFICATION Spec\nINVARIANT ResultOK\n'
+                    'INVARIANT EmitInv\nPROPERTY Termination\nPROPERTY Progress\nCHECK_DEADLOCK FALSE\n' % (sz["MaxTxt"], sz["MaxSub"]))
+        r = common.run_tlc("FindAll", fn, work, workers=1, timeout=7200)
+        res.add_tlc(r)
+        if common.tlc_failed(r):
+            sys.stderr.write(r["out"][-3000:])
+            raise common.MachineryError("the FindAll loop machine failed at design level (termination / result)")
+        emitted = common.parse_json_lines(r["out"])
+        res.exhaustive = True
+        items = [(e["txt"], e["sub"], k) for k in range(2 if tier == "quick" else 4) for e in emitted]
+        rng = random.Random(common.SEED * 31 + 7)
+        for _ in range(sz["rand"]):
+            txt = [rng.choice("ab") for _k in range(rng.randint(0, 40))]
+            sub = [rng.choice("ab") for _k in range(rng.randint(0, 4))]
+            if txt and rng.random() < 0.4:
+                p = rng.randrange(len(txt))
+                sub = txt[p:p + rng.randint(1, 4)]
+            items.append((txt, sub, rng.randrange(4)))
+        import multiprocessing as mp
+        size = max(1, len(items) // (2 * common.NCPU) + 1)
+        chunks = [(items[i:i + size], i, work) for i in range(0, len(items), size)]
+        with mp.get_context("fork").Pool(common.NCPU) as pool:
+            events = [e for ch in pool.map(common.Guarded(_fa_job), chunks) for e in ch]
+        events = common.split_broken(res, prop, events)
+        ndrift = 0
+        for i, (e, it) in enumerate(zip(events, items)):
+            e["id"] = i
+            res.distinct.add((len(e["txt"]) > 6, len(e["sub"]), len(e["ret"]), e["st"]))
+        for e, m in zip(events, emitted):
+            if e["st"] != "ok" or e["ret"] != list(m["ret"]):
+                ndrift += 1
+                res.violations.append((prop + "_real_result_equals_the_loop_machine", dict(e, machine=m["ret"])))
+        if events:
+            res.add_sample(events[0])
+            res.add_sample(events[-1])
+        verdicts, nval, cmd = common.validate_traces("Trace_FindAll", events, work)
+        res.cmds.append(cmd)
+        res.traces += nval
+        res.evaluations += len(events)
+        res.judge(events, verdicts, common.load_findings(), lambda c: c.startswith(prop + "_"))
+        res.notes = dict(machine_runs=len(emitted), random=sz["rand"], impl_drift=ndrift)
+        res.assumptions = ["termination is decided for the PlusCal transcription (weak fairness of the loop), the real function is bound to it by "
+                           "equal results on every text and pattern of the universe; a hang of the real function would stop the run"]
+        res.rule = ("every (text up to MaxTxt, pattern up to MaxSub) over a two-letter alphabet: the loop machine terminates with exactly the "
+                    "occurrences (TLC: ResultOK, Termination, Progress); each replayed through utils.findAll under several concrete alphabets "
+                    "(ASCII, Praat's brackets and blanks, accented letters and newlines, astral characters), plus random longer texts")
+        return res.finish(tier)
+    finally:
+        shutil.rmtree(work, ignore_errors=True)
